@@ -22,6 +22,16 @@ def load_plain(path):
         return y.load(f)
 
 
+def _count_entries(path):
+    n = 0
+    with open(path) as f:
+        for line in f:
+            if line.startswith("- name:") or line.startswith("    - name:") or \
+                    line.startswith("  - name:"):
+                n += 1
+    return n
+
+
 def names_of(e):
     n = e.get("name")
     return [str(x) for x in n] if isinstance(n, list) else [str(n)]
@@ -62,7 +72,7 @@ def _parse(isa, text):
 
 def sweep_model(item):
     """one shipped file: every entry, instruction synthesised from the entry's own pattern"""
-    name = item
+    name, lo, hi, near = item
     out = {"n": 0, "bad": [], "unsynth": 0, "unspec": 0, "self": 0, "earlier": 0,
            "order_same_data": 0, "perturb": 0, "entries": 0, "samples": []}
     try:
@@ -89,11 +99,19 @@ def sweep_model(item):
         for j, e in enumerate(entries):
             for n in names_of(e):
                 by_name.setdefault(n.upper(), []).append(j)
-        out["entries"] = len(entries)
+        out["entries"] = len(entries[lo:hi])
         for j, e in enumerate(entries):
+            if not lo <= j < hi:
+                continue
             pats = e.get("operands") or []
             if not all(isinstance(p, dict) and "class" in p for p in pats):
                 out["unsynth"] += 1
+                continue
+            prob = next((q for q in (RM.pattern_problem(isa, p) for p in pats) if q), None)
+            if prob:
+                out["bad"].append(("malformed-pattern", "entry #%d (%s): %s - no instruction can "
+                                   "ever resolve to it" % (j, names_of(e)[0], prob),
+                                   names_of(e)[0], pats))
                 continue
             for variant in (0, 1):
                 optexts = [RM.synth(isa, p, k, variant) for k, p in enumerate(pats)]
@@ -150,7 +168,7 @@ def sweep_model(item):
                     else:
                         out["earlier"] += 1
                     # near misses: one operand of another kind, or another operand count
-                    if variant == 0 and mn == names_of(e)[0]:
+                    if near and variant == 0 and mn == names_of(e)[0]:
                         cands = []
                         for k in range(len(optexts)):
                             for alt in PERTURB[isa]:
@@ -196,11 +214,19 @@ def run(ctx):
     res = core.Result()
     from mc.checks import c07_synth
     res.merge(c07_synth.run_part(ctx))
-    names = ["zen1", "n1", "tx2", "isa/x86", "isa/aarch64"]
-    if ctx.thorough:
-        names = drive.shipped_archs() + ["isa/x86", "isa/aarch64"]
+    small = ["zen1", "n1", "tx2", "isa/x86", "isa/aarch64"]
+    names = drive.shipped_archs() + ["isa/x86", "isa/aarch64"]
     drive.stage(ctx, names)
-    out = core.pmap(sweep_model, names, chunk=1)
+    # one item per slice of 400 entries; near-miss instructions for every entry in the thorough
+    # tier, for the small files in the quick tier
+    from osaca import utils
+    items = []
+    for n in names:
+        cnt = _count_entries(utils.find_datafile(n + ".yml"))
+        for lo in range(0, max(cnt, 1), 400):
+            items.append((n, lo, lo + 400, ctx.thorough or n in small))
+    out = core.pmap(sweep_model, items, chunk=1)
+    out = [(it[0], o) for it, o in out]
     tot = {"self": 0, "earlier": 0, "order_same_data": 0, "unsynth": 0, "perturb": 0,
            "entries": 0}
     for name, o in out:
@@ -229,10 +255,12 @@ def run(ctx):
     res.rule = ("(a) synthetic models: every (entry operand pattern, instruction operand) pair per "
                 "operand position, pairs of pairs for arity 2, duplicate/shadowing entries, mnemonic "
                 "case and suffix fall-backs, through ArchSemantics; (b) every entry of shipped model "
-                "files (quick: zen1, n1, tx2 and both ISA databases; thorough: all): the instruction "
+                "files: the instruction "
                 "synthesised from the entry's own pattern must resolve to the first entry in file "
                 "order accepted by the reference matcher, near-miss instructions (one operand of "
-                "another kind, one operand more/less) must not resolve to that entry")
+                "another kind, one operand more/less; quick: zen1, n1, tx2 and both ISA databases, "
+                "thorough: all files) must not resolve to that entry; a pattern field outside its "
+                "documented domain makes the entry unreachable and is reported")
     res.assumptions = [
         "reference match relation mc/ref/match.py; combinations the statement does not define "
         "(mask/segment registers, shapeless vector registers, typo patterns) are excluded and counted",
@@ -244,7 +272,7 @@ def replay(ctx, payload):
     r = payload["replay"]
     if r.get("part") == "shipped":
         drive.stage(ctx, [r["file"]])
-        _, o = sweep_model(r["file"])
+        _, o = sweep_model((r["file"], 0, 10 ** 9, True))
         hits = [b for b in o["bad"] if b[2] == r["mnemonic"]]
         for b in hits[:10]:
             print(b[0], b[1])
